@@ -6,6 +6,8 @@ export GOFLAGS=-mod=mod GOPROXY=off GOSUMDB=off GOTOOLCHAIN=local
 mkdir -p .work evidence replays
 (cd extract && go build -o ../.work/extract .)
 ./.work/extract -repo "${VERIF_REPO:-/repo}" -out lean/GB/Generated/Facts.lean -json .work/facts.json
+(cd extract/lockset && go build -o ../../.work/lockset .)
+./.work/lockset -repo "${VERIF_REPO:-/repo}" -out lean/GB/Generated/Lockset.lean -json .work/lockset.json
 (cd lean && lake build GB gbdriver)
 (cd harness && go build -tags verif -o ../.work/harness .)
 echo "setup ok"
